@@ -20,6 +20,7 @@ func init() {
 			ruleC15K3(r)
 			ruleC15K4(r)
 			ruleC15K5(r)
+			ruleAlwaysCancels(r, "K7")
 			r.Begin("K6", "pongs are routed without blocking: the reply table the pong is delivered through holds only channels of capacity >= 1 (a reply abandoned by its caller must not stall the router, or live pongs pile up and a live broker is dropped)", 1)
 			chanCapRule(r, "/wire.ClientConn.replyCh", 1)
 		},
